@@ -32,6 +32,7 @@ the parser and the per-directive unmarshalers on all byte strings, determinism o
 map-derived parts of the output, loadability of the output.
 -/
 import CaddyModel.C16.Spec
+import CaddyModel.Gen.Glue
 import CaddyModel.C16.Lemmas
 import CaddyModel.C16.Witness
 import CaddyModel.C16.LexProps
@@ -213,5 +214,18 @@ theorem sort_perm_invariant_of_distinct (order : List String) (l l' : List Route
 
 example : ([⟨"respond", true, 0, []⟩, ⟨"header", true, 0, []⟩, ⟨"root", true, 0, []⟩].map
     (kindOf Gen.defaultDirectiveOrder)).Nodup := by decide
+
+/-! ### regenerated facts: the order table and the registered directives -/
+
+/-- every directive of the default order table is a registered directive (a string literal
+passed to `RegisterDirective` / `RegisterHandlerDirective` somewhere in the module): the `hist`
+correspondence cases and `History.applyOp` take the table as the universe of names the `order`
+option accepts, and a directive that is ordered but not registered could never be written -/
+theorem directiveOrder_registered_matches_source :
+    Gen.defaultDirectiveOrder.all (fun d => Gen.registeredDirectives.contains d) = true := by decide
+
+/-- the `order` global option the model of `History.lean` is about is registered as such -/
+theorem order_option_is_registered_matches_source :
+    Gen.registeredGlobalOptions.contains "order" = true ∧ Gen.registeredDirectives.contains "handle_path" = true := by decide
 
 end CaddyModel.C16
